@@ -880,6 +880,14 @@ found:
 		x.refill()
 	}
 foundEndOfString:
+	if byteString {
+		for _, c := range buf.Bytes() {
+			if c >= 0x80 {
+				x.SyntaxErrorf("bytes can only contain ASCII literal characters.")
+				return eofError, nil
+			}
+		}
+	}
 	if !rawString {
 		var err error
 		buf, err = DecodeEscape(buf, byteString)
